@@ -3,6 +3,7 @@ import Cirbo.Proofs.GenLevels
 import Cirbo.Proofs.GenDadda
 import Cirbo.Proofs.GenKara
 import Cirbo.Proofs.GenSquare
+import Cirbo.Proofs.GenWallace
 /-!
 # C08 — Multiplier and squarer generators compute exact products
 
@@ -18,7 +19,8 @@ import Cirbo.Proofs.GenSquare
 -- OBLIGATION: c08_mul_pow2_m1
 -- OBLIGATION: c08_square
 -- OBLIGATION: c08_square_pow2_m1
--- PARTIAL: proved: the frame theorem for every mode (all are Prog programs), the partial-product matrix (sum_i 2^i*row_i = a*b), add_mul_alter = a*b exactly (positional), add_mul (DEFAULT) = a*b exactly (positional: on gapless weights the weighted sum returns the levels 0,1,2,... in order); only its result width n+m is not proved; add_mul_dadda = a*b exactly with its result width (all reduction stages, any operand widths, both endiannesses). both Karatsuba variants (add_mul_karatsuba_with_efficient_sum = MulMode.KARATSUBA, and add_mul_karatsuba over add_mul_pow2_m1) = a*b exactly with their result width, by induction over the recursion (every threshold, operands of different widths, zero padding, the subtraction never borrows); add_mul_pow2_m1 = a*b exactly with its width (column-loop invariant over add_sum_pow2_m1, anti-diagonal re-summation of the partial-product matrix). both squarers (add_square_pow2_m1: the AND triangle built by the nested loops, the square as a sum over anti-diagonals; add_square: induction over the recursive split x = a + 2^mid*b) = x^2 exactly on 2n bits. Wallace is modelled one-to-one (Model/Gen3.lean) and compared gate for gate with the code on every run (widths up to 40x40), and the search checks its values exhaustively/densely and the result widths on the real generator; its value theorem is not proved.
+-- OBLIGATION: c08_mul_wallace
+-- PARTIAL: proved: the frame theorem for every mode (all are Prog programs), the partial-product matrix (sum_i 2^i*row_i = a*b), add_mul_alter = a*b exactly (positional), add_mul (DEFAULT) = a*b exactly (positional: on gapless weights the weighted sum returns the levels 0,1,2,... in order); only its result width n+m is not proved; add_mul_dadda = a*b exactly with its result width (all reduction stages, any operand widths, both endiannesses). both Karatsuba variants (add_mul_karatsuba_with_efficient_sum = MulMode.KARATSUBA, and add_mul_karatsuba over add_mul_pow2_m1) = a*b exactly with their result width, by induction over the recursion (every threshold, operands of different widths, zero padding, the subtraction never borrows); add_mul_pow2_m1 = a*b exactly with its width (column-loop invariant over add_sum_pow2_m1, anti-diagonal re-summation of the partial-product matrix). both squarers (add_square_pow2_m1: the AND triangle built by the nested loops, the square as a sum over anti-diagonals; add_square: induction over the recursive split x = a + 2^mid*b) = x^2 exactly on 2n bits. add_mul_wallace = a*b exactly (Proofs/GenWallace.lean: the matrix with placeholder strings stands for Σ 2^col·(non-placeholder bits); every round keeps that number modulo 2^(n+m) — per-cell accounting over groups of three rows, carries out of the top column dropped; the two remaining rows are read as numbers with the gap logic; every label a run draws is "new_…", hence different from the placeholder — a second semantics SemF carries this along the same path). Not proved: the result widths of DEFAULT and Wallace (checked on the real generators on every run).
 -/
 namespace Cirbo
 
@@ -158,6 +160,16 @@ theorem c08_square_pow2_m1 {st st' : GSt} {x out : List Label} {be : Bool}
   refine ⟨v', h1, h2, ?_, e2⟩
   rw [e1, valLE_congr (fun l hl => h2 l (hx l (mem_revIf.mp hl)))]
 
+/-- **`add_mul_wallace`** on arbitrary host gates, any widths, either endianness: exactly `a·b`.
+(No assumption on the operand labels: only the partial products, which are fresh gates, are ever
+compared with the placeholder string.) -/
+theorem c08_mul_wallace {st st' : GSt} {x y out : List Label} {be : Bool}
+    (h : (addMulWallace x y be).run st = .ok (out, st')) (hw : WFS st.c)
+    (hx : ∀ l ∈ x, l ∈ st.c.labels) (hy : ∀ l ∈ y, l ∈ st.c.labels) {b v : Label → Bool} (hv : IsValB st.c b v) :
+    ∃ v', IsValB st'.c b v' ∧ (∀ l ∈ st.c.labels, v' l = v l) ∧
+      valLE v' (revIf out be) = valLE v (revIf x be) * valLE v (revIf y be) :=
+  run_addMulWallace h hw hx hy hv
+
 #print axioms c08_generators_only_add_fresh_gates
 #print axioms c08_partial_products
 #print axioms c08_mul_alter
@@ -170,5 +182,6 @@ theorem c08_square_pow2_m1 {st st' : GSt} {x out : List Label} {be : Bool}
 #print axioms c08_mul_pow2_m1
 #print axioms c08_square
 #print axioms c08_square_pow2_m1
+#print axioms c08_mul_wallace
 
 end Cirbo
